@@ -9,6 +9,7 @@ maps, the operator tables of C02); every fold site of the compiler is disabled o
 escape-neutral for volatile frames; only values whose ``repr`` the generated module can
 evaluate are folded (has_safe_repr recursion covers every component of every container).
 Also: every nested as_const receives the eval context; ints without a text form are not folded.  
+Also: Getattr / Getitem folding agrees with the emitted lookup.  
 Not decided: equality of values between folded and unfolded evaluation.
 """
 
